@@ -131,4 +131,6 @@ extern uint64_t xv_rmw_old; extern _Bool xv_cas_ok;
 
 #define A_FENCE(o) do { xv_clock++; XV_ON_FENCE(o); } while (0)
 
+/* std::swap of two word-modelled lvalues (built-in lowering rule) */
+#define XV_STD_SWAP(a, b) do { __typeof__(a) xv_sw = (a); (a) = (b); (b) = xv_sw; } while (0)
 #endif
